@@ -1,6 +1,6 @@
 (* Pinned statements of the C16 theorems. *)
 From Coq Require Import ZArith QArith Qround Qreduction Qabs List String Bool Permutation.
-From NV Require Import Arith.Num Arith.Expr Arith.Eq Arith.NumProofs Arith.StdProofs Arith.EqProofs Gen.StdNumber Props.C16.
+From NV Require Import Arith.Num Arith.Expr Arith.Eq Arith.NumProofs Arith.StdProofs Arith.EqProofs Arith.EqX Arith.EqXProofs Gen.StdNumber Props.C16.
 Import ListNotations.
 Open Scope Q_scope.
 
@@ -64,3 +64,6 @@ Check (C16_eq_iff_canon : forall a b, wf a = true -> wf b = true -> (dv_eqb a b 
 Check (C16_eq_iff_export : forall a b, wf a = true -> wf b = true -> enum_free a = true -> enum_free b = true -> (dv_eqb a b = true <-> export a = export b)).
 Check (C16_eq_export_enum_refuted : exists a b, wf a = true /\ wf b = true /\ export a = export b /\ dv_eqb a b = false).
 Check (C16_eq_stack_equiv : forall a b, wf a = true -> wf b = true -> eq_machine a b = Some (dv_eqb a b)).
+Check (C16_xeq_norm : forall a b da db, norm [] a = Some da -> norm [] b = Some db -> xwf a = true -> xwf b = true -> xeq_machine a b = Ok (dv_eqb da db)).
+Check (C16_xeq_ignores_pending : forall a b a' b' da db, norm [] a = Some da -> norm [] a' = Some da -> norm [] b = Some db -> norm [] b' = Some db -> xwf a = true -> xwf a' = true -> xwf b = true -> xwf b' = true -> xeq_machine a b = xeq_machine a' b').
+Check (C16_xeq_embed : forall a b, wf a = true -> wf b = true -> xeq_machine (embed a) (embed b) = Ok (dv_eqb a b)).
